@@ -1,6 +1,9 @@
 package c13
 
 import (
+	"verifharness/gomspec"
+	"verifharness/scratch"
+
 	"fmt"
 	"os"
 	"path/filepath"
@@ -79,8 +82,24 @@ func genPkg() *rapid.Generator[pkgSpec] {
 			for j := 0; j < nf; j++ {
 				k := rapid.SampledFrom(kinds).Draw(t, "kind")
 				name := fmt.Sprintf("f%d", j+1)
-				if rapid.IntRange(0, 3).Draw(t, "public") == 0 {
+				switch rapid.IntRange(0, 5).Draw(t, "public") {
+				case 0:
 					name = fmt.Sprintf("F%d", j+1)
+				case 1, 2:
+					// names that differ only in how (or whether) a trailing number is written; the same
+					// name may appear in several structs (per-name declarations are emitted once per package)
+					pool := []string{"a", "a0", "a1", "a01", "a2", "a10", "a02", "n", "n0", "n00", "q9", "q09", "q10"}
+					for try := 0; try < 20; try++ {
+						c := rapid.SampledFrom(pool).Draw(t, "numericName")
+						dup := false
+						for _, f := range s.Fields {
+							dup = dup || f.Name == c
+						}
+						if !dup {
+							name = c
+							break
+						}
+					}
 				}
 				s.Fields = append(s.Fields, fieldSpec{Name: name, Kind: k})
 			}
@@ -94,6 +113,32 @@ func genPkg() *rapid.Generator[pkgSpec] {
 				s.Monoid = rapid.IntRange(0, 2).Draw(t, "monoid") != 0
 			}
 			p.Structs = append(p.Structs, s)
+		}
+		// half of the packages carry, somewhere, two field names that tie when a trailing number is read
+		// by value (a/a0, a1/a01, ...), usually in structs that get per-name declarations (@fp.GenLabelled)
+		if rapid.Bool().Draw(t, "tiePair") {
+			pair := rapid.SampledFrom([][2]string{{"a", "a0"}, {"a1", "a01"}, {"n0", "n00"}, {"q9", "q09"}, {"n", "n00"}, {"a2", "a02"}}).Draw(t, "pair")
+			si := rapid.IntRange(0, n-1).Draw(t, "tieStructA")
+			sj := rapid.IntRange(0, n-1).Draw(t, "tieStructB")
+			if si == sj && len(p.Structs[si].Fields) < 2 {
+				p.Structs[si].Fields = append(p.Structs[si].Fields, fieldSpec{Name: "f9", Kind: kInt})
+			}
+			place := func(st *structSpec, at int, name string) {
+				for k := range st.Fields {
+					if st.Fields[k].Name == name {
+						st.Fields[k].Name = fmt.Sprintf("g%d", k+1)
+					}
+				}
+				st.Fields[at].Name = name
+			}
+			place(&p.Structs[si], 0, pair[0])
+			place(&p.Structs[sj], len(p.Structs[sj].Fields)-1, pair[1])
+			if si == sj { // placing the second may have renamed the first when the struct has one slot for both
+				p.Structs[si].Fields[0].Name = pair[0]
+			}
+			if rapid.IntRange(0, 3).Draw(t, "tieLabelled") != 0 {
+				p.Structs[si].Labelled, p.Structs[sj].Labelled = true, true
+			}
 		}
 		return p
 	})
@@ -317,7 +362,7 @@ func (env *scratchEnv) decide(rt *rapid.T, rec *kit.Rec, sigPrefix string, src s
 		rec.Case(false, src)
 		sig := env.sig
 		if sig == "" {
-			sig = "C13|infra|scratch-setup"
+			sig = "HARNESS|infra|scratch-setup"
 		}
 		rec.Failf(rt, sig, "%v", env.err)
 	}
@@ -337,7 +382,15 @@ func (env *scratchEnv) decide(rt *rapid.T, rec *kit.Rec, sigPrefix string, src s
 		if gmp != "" {
 			extra = append(extra, "GOMAXPROCS="+gmp)
 		}
-		return runCmd(filepath.Join(dir, "pa"), childEnv(extra...), genTimeout, env.bin)
+		var r cmdResult
+		for attempt := 0; attempt < 3; attempt++ {
+			r = runCmd(filepath.Join(dir, "pa"), childEnv(extra...), genTimeout, env.bin)
+			if !scratch.ToolchainTrouble(r.Out) {
+				break
+			}
+			time.Sleep(time.Duration(attempt+1) * 2 * time.Second)
+		}
+		return r
 	}
 	var wg sync.WaitGroup
 	withBeat(rec, func() {
@@ -358,7 +411,15 @@ func (env *scratchEnv) decide(rt *rapid.T, rec *kit.Rec, sigPrefix string, src s
 	for _, r := range runs {
 		if r.err != nil {
 			rec.Case(false, src)
-			rec.Failf(rt, "C13|infra|scratch-write", "%v", r.err)
+			rec.Failf(rt, "HARNESS|infra|scratch-write", "%v", r.err)
+		}
+	}
+	for _, r := range runs {
+		if scratch.ToolchainTrouble(r.res.Out) {
+			// the environment failed three times in a row (build cache trimmed under go/packages, disk,
+			// memory): not the generator's answer, nothing is decided
+			rec.Case(false, src)
+			rec.Failf(rt, "HARNESS|infra|toolchain-trouble", "%s: %s", r.name, tail(r.res.Out, 10))
 		}
 	}
 	accepted := true
@@ -398,6 +459,9 @@ func (env *scratchEnv) decide(rt *rapid.T, rec *kit.Rec, sigPrefix string, src s
 	last := runs[2]
 	var again cmdResult
 	withBeat(rec, func() { again = gombok(last.dir, "") })
+	if scratch.ToolchainTrouble(again.Out) {
+		rec.Failf(rt, "HARNESS|infra|toolchain-trouble", "run4: %s", tail(again.Out, 10))
+	}
 	if again.Exit != 0 || hasPanic(again.Out) {
 		rec.Failf(rt, sigPrefix+"|not-idempotent", "gombok accepted the package but fails when run again on top of its own output (exit status %d):\n%s\ninput:\n%s", again.Exit, tail(again.Out, 25), src)
 	}
@@ -480,11 +544,33 @@ func TestScratch(t *testing.T) {
 	t.Cleanup(env.cleanup)
 
 	kit.Check(t, "scratch/determinism",
-		"scratch package `pa` from a grammar (1-4 @fp.Value structs, optionally generic, 1-5 fields of int/string/[]string/fp.Option[int]/*Self/map[string]int/fp.Seq[int]/T, optional @fp.Json/@fp.GenLabelled, optional Eq/Hashable/Monoid derives where the field kinds allow them); gombok (built from the tree) run on three identical copies with GOMAXPROCS=1/16/default and once more on top of its own output; non-trivial iff gombok accepted the package and wrote >= 1 non-empty file; distinct by source text",
+		"scratch package `pa` from a grammar (1-4 @fp.Value structs, optionally generic, 1-5 fields (named fN/FN or from a pool of names that tie when a trailing number is read by value; half of the packages carry such a tie pair) of int/string/[]string/fp.Option[int]/*Self/map[string]int/fp.Seq[int]/T, optional @fp.Json/@fp.GenLabelled, optional Eq/Hashable/Monoid derives where the field kinds allow them); gombok (built from the tree) run on three identical copies with GOMAXPROCS=1/16/default and once more on top of its own output; non-trivial iff gombok accepted the package and wrote >= 1 non-empty file; distinct by source text",
 		kit.Opt{MinChecks: 2, HangAfter: 20 * time.Minute},
 		func(rt *rapid.T, rec *kit.Rec) {
 			spec := genPkg().Draw(rt, "pkg")
 			env.decide(rt, rec, "C13|scratch", spec.render(), func() { labelSpec(rec, spec) })
+		})
+	kit.Check(t, "scratch/determinism-value-grammar",
+		"scratch package `pa` drawn from the C07 grammar (gomspec: 1-4 structs under @fp.Value or the explicit annotation family, 1-25 fields, private/public/underscore/embedded/short/numeric-suffix names, composite field types, tags, type parameters, hand-written members); gombok (built from the tree) run on three identical copies with GOMAXPROCS=1/16/default and once more on top of its own output; non-trivial iff gombok accepted the package and wrote >= 1 non-empty file; distinct by source text",
+		kit.Opt{MinChecks: 2, HangAfter: 20 * time.Minute},
+		func(rt *rapid.T, rec *kit.Rec) {
+			src, labels := gomspec.DrawValueSource(rt)
+			env.decide(rt, rec, "C13|scratch-value-grammar", src, func() {
+				for _, l := range labels {
+					rec.Label(l)
+				}
+			})
+		})
+	kit.Check(t, "scratch/determinism-derive-grammar",
+		"scratch package `pa` drawn from the C08 grammar (gomspec: 1-3 structs, @fp.Derive directives for Eq/Ord/Hashable/Monoid/Clone/Show, nested and generic structs, recursive=true, local instance overrides); gombok run as above; non-trivial iff gombok accepted the package and wrote >= 1 non-empty file; distinct by source text",
+		kit.Opt{MinChecks: 2, HangAfter: 20 * time.Minute},
+		func(rt *rapid.T, rec *kit.Rec) {
+			src, labels := gomspec.DrawDeriveSource(rt)
+			env.decide(rt, rec, "C13|scratch-derive-grammar", src, func() {
+				for _, l := range labels {
+					rec.Label(l)
+				}
+			})
 		})
 	adaptorCheck(t, env)
 }
